@@ -834,6 +834,13 @@ func (e *evalEnv) call(n *Node) *Val {
 		// the string was produced by fmt.Sprintf from the given constant format
 		s, f := e.eval(args[0]), e.eval(args[1])
 		return bval(eq(sel(fr.vc.strFmtArray(), s.L[0]), f.L[0]))
+	case "upwidth", "sidwidth", "tfwidth", "wswidth":
+		// width algebra: total encoded width of the first k elements of a list, as an
+		// uninterpreted function of (the heap array holding the lengths/values, base, k)
+		// whose one-step unfolding is emitted at every application
+		x := e.eval(args[0])
+		k := e.intOf(e.eval(args[1]))
+		return &Val{T: types.Typ[types.Int], L: []string{fr.vc.sumWidth(name, e.st, x, k)}}
 	case "tainted":
 		// byte j of x is marked secret in the ghost taint map (information-flow mode)
 		x := e.eval(args[0])
